@@ -43,29 +43,44 @@ fn kind_of(k: u8) -> ErrorKind {
 
 struct PlanWriter {
     plan: Plan,
-    /// number of successful writes so far
-    data_len: usize,
     calls: usize,
     out: Rc<RefCell<Vec<u8>>>,
-    /// which call carried the data (detected by content length and position)
-    expects_codes_before: usize,
+    /// the data of the call under test: the data write is recognised by its content (the first
+    /// call that offers exactly the data), not by its position, so that the check does not depend
+    /// on how many inner writes carry the colour codes
+    data: Vec<u8>,
+    seen_data: bool,
+    /// what happened, for the oracle: was the planned fault injected, and on which kind of call
+    log: Rc<RefCell<PlanLog>>,
+}
+
+#[derive(Default, Debug)]
+struct PlanLog {
+    injected: bool,
+    injected_on_data: bool,
+    data_call_seen: bool,
 }
 
 impl Write for PlanWriter {
     fn write(&mut self, buf: &[u8]) -> std::io::Result<usize> {
         self.calls += 1;
+        let is_data_call = !self.seen_data && !self.data.is_empty() && buf == self.data.as_slice();
         if let Plan::FailAt(k, kind) = self.plan {
             if self.calls == k {
+                let mut l = self.log.borrow_mut();
+                l.injected = true;
+                l.injected_on_data = is_data_call;
                 return Err(std::io::Error::new(kind_of(kind), "injected"));
             }
         }
-        // the data write is the first successful write after the colour codes
-        let is_data_call = self.data_len == self.expects_codes_before;
+        if is_data_call {
+            self.seen_data = true;
+            self.log.borrow_mut().data_call_seen = true;
+        }
         let n = match self.plan {
             Plan::DataPrefix(n) if is_data_call => n.min(buf.len()),
             _ => buf.len(),
         };
-        self.data_len += 1;
         self.out.borrow_mut().extend_from_slice(&buf[..n]);
         Ok(n)
     }
@@ -101,8 +116,8 @@ fn check(case: &Case) -> Result<bool, String> {
     let bg = case.bg.map(|k| ANSI_COLORS[k as usize & 15]);
     let want = MStyle { fg: case.fg.map(|k| MColor::Ansi(k & 15)), bg: case.bg.map(|k| MColor::Ansi(k & 15)), ..Default::default() };
     let coloured = fg.is_some() || bg.is_some();
-    let codes_before = fg.is_some() as usize + bg.is_some() as usize;
     let out = Rc::new(RefCell::new(Vec::new()));
+    let plog = Rc::new(RefCell::new(PlanLog::default()));
     let (res, output): (std::io::Result<usize>, Vec<u8>) = match case.target {
         3 => {
             let mut v: Vec<u8> = Vec::new();
@@ -119,7 +134,7 @@ fn check(case: &Case) -> Result<bool, String> {
             (r, v)
         }
         t => {
-            let mut w = PlanWriter { plan: case.plan, data_len: 0, calls: 0, out: out.clone(), expects_codes_before: codes_before };
+            let mut w = PlanWriter { plan: case.plan, calls: 0, out: out.clone(), data: data.clone(), seen_data: false, log: plog.clone() };
             let r = match t {
                 0 => anstyle_wincon::ansi::write_colored(&mut w, fg, bg, &data),
                 1 => {
@@ -142,33 +157,35 @@ fn check(case: &Case) -> Result<bool, String> {
         anstyle_wincon::ansi::write_colored(&mut v, fg, bg, &data).map_err(|e| format!("fault-free run failed: {e}"))?;
         v
     };
-    match plan {
-        Plan::FailAt(k, kind) => {
-            // number of inner writes of a fault-free run: codes + data (if any call) + reset
-            let total_calls = codes_before + 1 + coloured as usize;
-            // std's write_all (used for the codes and the reset through write!) retries an
-            // interrupted write, so such a fault is invisible; only the data write is a
-            // plain `write` whose interruption reaches the caller
-            let retried = kind_of(kind) == ErrorKind::Interrupted && k != codes_before + 1;
-            if k <= total_calls && !retried {
-                match &res {
-                    Err(e) if e.kind() == kind_of(kind) => {}
-                    other => return Err(format!("inner write #{k} failed with {:?} but write_colored returned {:?}", kind_of(kind), other.as_ref().map_err(|e| e.kind()))),
+    let plog = plog.borrow();
+    // data that also occurs inside the colour codes cannot be told from them by content
+    if !data.is_empty() && coloured && matches!(plan, Plan::DataPrefix(_) | Plan::FailAt(..)) && full.windows(data.len()).filter(|w| *w == data.as_slice()).count() > 1 {
+        return Ok(false);
+    }
+    if let Plan::FailAt(k, kind) = plan {
+        if plog.injected {
+            // How the codes and the reset reach the writer (write_all, one write or several) is
+            // not part of the property: an Interrupted answer may be retried (std's write_all
+            // does) or surface. Every other kind must surface.
+            let may_be_retried = kind_of(kind) == ErrorKind::Interrupted;
+            match &res {
+                Err(e) if e.kind() == kind_of(kind) => {
+                    if !(output.len() <= full.len() && full[..output.len()] == output[..]) {
+                        return Err(format!("after the failure the writer holds {} which is not a prefix of {}", esc(&output), esc(&full)));
+                    }
+                    return Ok(coloured && !data.is_empty());
                 }
-                if !(output.len() <= full.len() && full[..output.len()] == output[..]) {
-                    return Err(format!("after the failure the writer holds {} which is not a prefix of {}", esc(&output), esc(&full)));
-                }
-                return Ok(coloured && !data.is_empty());
+                Ok(_) if may_be_retried => {}
+                other => return Err(format!("inner write #{k} failed with {:?} but write_colored returned {:?}", kind_of(kind), other.as_ref().map_err(|e| e.kind()))),
             }
         }
-        _ => {}
     }
     let n = match res {
         Ok(n) => n,
         Err(e) => return Err(format!("write_colored failed with {:?} although no error was injected", e.kind())),
     };
     let want_n = match plan {
-        Plan::DataPrefix(p) => p.min(data.len()),
+        Plan::DataPrefix(p) if plog.data_call_seen => p.min(data.len()),
         _ => data.len(),
     };
     if n != want_n {
